@@ -40,10 +40,8 @@ Definition must_report (p : plugin) (typs : list aty) : bool :=
   | PGostring, [t] => has_unsup true false t
   | PSort, [ASlice e] => has_unsup true true e
   | (PMin | PMax), [a; b] =>
-      if identical a b then
-        match a with ABasic k => negb (is_ordered k) | _ => has_unsup true true a end
+      if identical a b then has_unsup true true a
       else match a with
-           | ASlice (ABasic k) => negb (is_ordered k)
            | ASlice e => has_unsup true true e
            | _ => false
            end
